@@ -110,34 +110,87 @@ def has_ph(parts):
 
 # =====================================================================================================
 # processing item conditions (scopes)
-def rule_cond_match(item, applied, rule_category="c"):
-    """match_rule_conditions: log source and processing_item_applied conditions, linking all"""
+def pj(v):
+    """printed form of a custom attribute / state value"""
+    return json.dumps(v, sort_keys=True, default=str)
+
+
+def rule_cond_match(item, st):
+    """match_rule_conditions as documented: logsource (unspecified attributes are ignored), processing_item_applied,
+    processing_state (eq), rule_attribute (eq / ne on a custom string attribute); linking all; st: tracked attributes"""
     rc = item.get("rule_conditions", [])
     def one(c):
-        if c["type"] == "processing_item_applied":
-            return c["processing_item_id"] in applied
-        return c.get("category") == rule_category
+        t = c["type"]
+        if t == "processing_item_applied":
+            return c["processing_item_id"] in st["applied"]
+        if t == "processing_state":
+            return c["key"] in st["state"] and st["state"][c["key"]] == c["val"]
+        if t == "rule_attribute":
+            if c["attribute"] not in st["custom"]:
+                return False
+            eq = str(st["custom"][c["attribute"]]) == c["value"]
+            return eq if c.get("op", "eq") == "eq" else not eq
+        return all(c.get(a) is None or c.get(a) == st["logsource"][a] for a in ("category", "product", "service"))
     rm = all(one(c) for c in rc)
     if item.get("rule_cond_not", False):
         rm = not rm
     return (not rc) or rm
 
 
-def rule_matches(pipeline):
-    """key of every processing item -> whether its rule conditions match, in pipeline order (an applied
-    item marks the rule with its identifier: PreprocessingTransformation.apply)"""
-    applied, out = set(), {}
+def track(case):
+    """The documented effect of the pipeline on the rule-level attributes, item by item: log source
+    (change_logsource sets exactly the given attributes), custom attributes, pipeline state, identifiers of the
+    applied items, fields list.  -> rm: key -> rule conditions match; ls: key -> log source the item sees;
+    final attributes"""
+    ls0 = case["rule"].get("logsource", {})
+    custom0 = {k: v for k, v in case["rule"].items() if k not in ("title", "logsource", "detection", "fields")}
+    st = {"logsource": {a: ls0.get(a) for a in ("category", "product", "service")}, "custom": custom0, "state": {}, "applied": [],
+          "fields": list(case["rule"].get("fields", []))}
+    rm, ls = {}, {}
     def walk(items, prefix, live):
         for k, it in enumerate(items):
             key = f"{prefix}{k}"
-            m = rule_cond_match(it, applied)
-            out[key] = m
-            if live and m and it.get("id"):
-                applied.add(it["id"])
-            if it["type"] == "nest":
-                walk(it["items"], key + ".", live and m)
-    walk(pipeline["transformations"], "", True)
-    return out
+            m = rule_cond_match(it, st)
+            rm[key] = m
+            ls[key] = dict(st["logsource"])
+            if not (live and m):
+                if it["type"] == "nest":
+                    walk(it["items"], key + ".", False)
+                continue
+            if it.get("id") and it["id"] not in st["applied"]:
+                st["applied"].append(it["id"])
+            t = it["type"]
+            if t == "nest":
+                walk(it["items"], key + ".", True)
+            elif t == "change_logsource":
+                st["logsource"] = {a: it.get(a) for a in ("category", "product", "service")}
+            elif t == "set_custom_attribute":
+                st["custom"][it["attribute"]] = it["value"]
+            elif t == "set_state":
+                st["state"][it["key"]] = it["val"]
+            elif t == "add_field":
+                st["fields"] += [it["field"]] if isinstance(it["field"], str) else list(it["field"])
+            elif t == "remove_field":
+                for f in ([it["field"]] if isinstance(it["field"], str) else it["field"]):
+                    if f in st["fields"]:
+                        st["fields"].remove(f)
+            elif t == "set_field":
+                st["fields"] = list(it["fields"])
+            else:
+                p = parse_item(it, key, {}, {}, None)
+                afn = make_afn(p[2]) if p[0] == "item" else None
+                if afn is not None:
+                    out = []
+                    for f in st["fields"]:
+                        r = afn(f)
+                        out += ([r[1]] if r[0] == "one" else list(r[1])) if (r is not None and fm(p[1], f)) else [f]
+                    st["fields"] = out
+    walk(denull(case["pipeline"])["transformations"], "", True)
+    return {"rm": rm, "ls": ls, "final": st}
+
+
+def rule_matches(case):
+    return track(case)["rm"]
 
 
 def parse_conds(item, rule_match=True):
@@ -148,7 +201,18 @@ def parse_conds(item, rule_match=True):
             iconds.append(("applied", c["processing_item_id"]))
         else:
             iconds.append(("null" if c["type"] == "is_null" else "wild", c["cond"] == "all"))
-    return {"id": item.get("id"), "rule": rule_match, "fconds": fconds, "fneg": bool(item.get("field_name_cond_not", False)),
+    rconds = []
+    for c in item.get("rule_conditions", []):
+        t = c["type"]
+        if t == "processing_item_applied":
+            rconds.append(("applied", c["processing_item_id"]))
+        elif t == "processing_state":
+            rconds.append(("state", c["key"], pj(c["val"])))
+        elif t == "rule_attribute":
+            rconds.append(("attr", c.get("op", "eq") == "ne", c["attribute"], pj(c["value"])))
+        else:
+            rconds.append(("logsource", c.get("category"), c.get("product"), c.get("service")))
+    return {"id": item.get("id"), "rule": rule_match, "rconds": rconds, "rneg": bool(item.get("rule_cond_not", False)), "fconds": fconds, "fneg": bool(item.get("field_name_cond_not", False)),
             "iconds": iconds, "ineg": bool(item.get("detection_item_cond_not", False))}
 
 
@@ -243,6 +307,16 @@ def parse_item(item, added_key, added, drawn, rm=None):
         ts = ("replace", item["regex"], item["replacement"])
     elif t == "convert_type":
         ts = ("convertstr",) if item.get("target_type") == "str" else ("convertnum",)
+    elif t == "change_logsource":
+        ts = ("chlog", item.get("category"), item.get("product"), item.get("service"))
+    elif t == "set_custom_attribute":
+        ts = ("setcustom", item["attribute"], pj(item["value"]))
+    elif t == "set_state":
+        ts = ("setstate", item["key"], pj(item["val"]))
+    elif t in ("add_field", "remove_field"):
+        ts = (t.replace("_", ""), [item["field"]] if isinstance(item["field"], str) else list(item["field"]))
+    elif t == "set_field":
+        ts = ("setfield", list(item["fields"]))
     elif t == "regex":
         ts = ("regex", item.get("method", "ignore_case_brackets"))
     elif t == "query_expression_placeholders":
@@ -539,7 +613,7 @@ def rw_entry(conds, ts, vars_, it):
         return mark_doc(conds["id"], d) if touched else d
     if ts[0] == "drop":
         return None
-    if ts[0] in ("addcond", "noop"):
+    if ts[0] in ("addcond", "noop", "chlog", "setcustom", "setstate", "addfield", "removefield", "setfield"):
         return ["E", it]
     if ts[0] in ("hashes", "extract"):
         d, touched = (rw_hashes if ts[0] == "hashes" else rw_extract)(ts, it)
@@ -588,7 +662,7 @@ def rewrite_case(case, rin, added, rout):
     expr = case["expr"]
     vars_ = case["pipeline"].get("vars", {})
     drawn = drawn_names(case, rin, rout)
-    rm = rule_matches(case["pipeline"])
+    rm = rule_matches(case)
     for k, item in enumerate(case["pipeline"]["transformations"]):
         p = parse_item(item, str(k), added, drawn, rm)
         if p[0] == "item":
@@ -606,6 +680,15 @@ def rewrite_case(case, rin, added, rout):
         out["rule"], out["atoms"] = spell_rule(e)
     except Unspellable as u:
         out["skip"] = "unspellable: " + str(u)
+        return out
+    if out["rule"] is not None:
+        # the rule-level attributes of the hand-rewritten document are the documented ones
+        fin = track(case)["final"]
+        out["rule"]["logsource"] = {a: v for a, v in fin["logsource"].items() if v is not None}
+        if fin["fields"]:
+            out["rule"]["fields"] = list(fin["fields"])
+        for k, v in fin["custom"].items():
+            out["rule"][k] = v
     return out
 
 
@@ -614,7 +697,7 @@ def drawn_names(case, rin, rout):
     have = {n for n, _ in rin["dets"]}
     new = [n for n, _ in rout["dets"] if n not in have and n.startswith("_cond_")]
     out = {}
-    rm = rule_matches(case["pipeline"])
+    rm = rule_matches(case)
     def walk(items, prefix):
         for k, it in enumerate(items):
             key = f"{prefix}{k}"
@@ -971,11 +1054,99 @@ def gen_transformation(rng, rule, identity):
 
 
 VARS = {"x": ["v1", "v*2"], "y": "single", "z": [1, "two"]}
+LOGSOURCES = [{"category": "c"}, {"category": "c"}, {"category": "c", "product": "windows"}, {"product": "windows", "service": "sysmon"},
+              {"category": "process_creation", "product": "windows"}, {"category": "c", "product": "linux", "service": "auditd"},
+              {"service": "security"}]
+LS_VALUES = {"category": ["c", "process_creation", "other"], "product": ["windows", "linux"], "service": ["sysmon", "auditd", "security"]}
 
 
-def template_subst(conds):
+def gen_logsource_cond(rng, ls, hit):
+    """logsource rule condition on a random non-empty subset of the attributes; hit: built from the values of ls"""
+    attrs = rng.sample(["category", "product", "service"], rng.randint(1, 2))
+    c = {"type": "logsource"}
+    for a in attrs:
+        c[a] = ls.get(a) if (hit and ls.get(a) is not None) else rng.choice(LS_VALUES[a])
+    return c
+
+
+def gen_rule_level(rng, rule):
+    """a transformation of rule-level attributes"""
+    t = rng.choice(["change_logsource", "change_logsource", "change_logsource", "set_custom_attribute", "set_state", "add_field",
+                    "remove_field", "set_field"])
+    it = {"type": t}
+    if t == "change_logsource":
+        for a in rng.sample(["category", "product", "service"], rng.choice([1, 1, 2, 2, 3])):   # every non-empty subset
+            it[a] = rng.choice(LS_VALUES[a] + [rule["logsource"].get(a) or LS_VALUES[a][0]])
+    elif t == "set_custom_attribute":
+        it["attribute"], it["value"] = rng.choice(["myattr", "env"]), rng.choice(["prod", "test", "x y"])
+    elif t == "set_state":
+        it["key"], it["val"] = rng.choice(["k", "stage"]), rng.choice(["v", "w", 1, 2])
+    elif t == "add_field":
+        it["field"] = rng.choice(["nf", ["nf", "f"], "g"])
+    elif t == "remove_field":
+        it["field"] = rng.choice(["f", ["g", "zz"], "other"])
+    else:
+        it["fields"] = rng.sample(C_FIELDS + ["nf"], rng.randint(0, 2))
+    return it
+
+
+def gen_attr_reader(rng, rule, first):
+    """a follower whose rule conditions / template read what the first item set"""
+    ls = rule["logsource"]
+    kind = rng.choice(["cond", "cond", "template"])
+    if kind == "template":
+        it = {"type": "add_condition", "template": True,
+              "conditions": rng.choice([{"source": "$category/$service"}, {"Image|startswith": "$product-"}, {"x": ["$service", "lit"], "y": "${category}"}])}
+        if rng.random() < 0.3:
+            it["negated"] = True
+        return it
+    t = first["type"]
+    if t == "change_logsource" or rng.random() < 0.3:
+        # conditions on the values the rule had before are the ones that tell "cleared" from "inherited"
+        c = gen_logsource_cond(rng, ls if rng.random() < 0.6 else {a: first.get(a) for a in ("category", "product", "service")}, True)
+    elif t == "set_state":
+        c = {"type": "processing_state", "key": first["key"], "val": rng.choice([first["val"], "v", 1])}
+    elif t == "set_custom_attribute":
+        c = {"type": "rule_attribute", "attribute": first["attribute"], "value": rng.choice([first["value"], "prod"]), "op": rng.choice(["eq", "eq", "ne"])}
+    else:
+        c = {"type": "processing_item_applied", "processing_item_id": "R"}
+    dep = {"rule_conditions": [c]}
+    if rng.random() < 0.35:
+        dep["rule_cond_not"] = True
+    if rng.random() < 0.2:
+        dep["rule_conditions"].append(gen_logsource_cond(rng, ls, rng.random() < 0.5))
+    it = rng.choice([{"type": "field_name_prefix", "prefix": "win."}, {"type": "drop_detection_item"}, {"type": "field_name_suffix", "suffix": "_x"},
+                     {"type": "set_value", "value": "Z"}, {"type": "case", "method": "upper"},
+                     {"type": "add_condition", "conditions": {"src": "$category/$service"}, "template": True}])
+    it.update(dep)
+    return it
+
+
+def gen_attr_chain(rng, rule):
+    first = gen_rule_level(rng, rule)
+    first["id"] = "R"
+    if rng.random() < 0.2:
+        first["rule_conditions"] = [gen_logsource_cond(rng, rule["logsource"], rng.random() < 0.7)]
+    items = [first]
+    if rng.random() < 0.85:
+        items.append(gen_attr_reader(rng, rule, first))
+    if rng.random() < 0.25:
+        items.append(gen_attr_reader(rng, rule, first))
+    if rng.random() < 0.15:
+        items.insert(1, gen_rule_level(rng, rule))
+    if rng.random() < 0.2 and first["type"] in ("set_custom_attribute", "set_state"):
+        # the same key set again (the later value counts)
+        again = dict(first, id="R2")
+        again["value" if first["type"] == "set_custom_attribute" else "val"] = rng.choice(["again", "prod", "v"])
+        items.insert(1, again)
+    if rng.random() < 0.15:
+        items = [{"type": "nest", "items": items}]
+    return items
+
+
+def template_subst(conds, ls):
     def s(x):
-        return string.Template(x).safe_substitute(category="c", product=None, service=None) if isinstance(x, str) else x
+        return string.Template(x).safe_substitute(category=ls["category"], product=ls["product"], service=ls["service"]) if isinstance(x, str) else x
     return {k: ([s(i) for i in v] if isinstance(v, list) else s(v)) for k, v in conds.items()}
 
 
@@ -989,13 +1160,25 @@ def assign_ids(items, prefix="i"):
             assign_ids(it["items"], it["id"] + "_")
 
 
-def collect_added(items, prefix, out):
+def collect_added(items, prefix, out, ls=None):
+    """definitions of the detections add_condition items add; templates are substituted with the log source
+    the item sees at its place in the pipeline (ls: key -> log source, from track())"""
     for k, it in enumerate(items):
         key = f"{prefix}{k}"
         if it["type"] == "nest":
-            collect_added(it["items"], key + ".", out)
+            collect_added(it["items"], key + ".", out, ls)
         elif it["type"] == "add_condition":
-            out[key] = template_subst(it["conditions"]) if it.get("template") else it["conditions"]
+            out[key] = template_subst(it["conditions"], ls[key]) if it.get("template") else it["conditions"]
+
+
+def finish_case(rule, expr, items, identity):
+    assign_ids(items)
+    case = {"rule": rule, "expr": expr, "pipeline": {"name": "p", "priority": 10, "vars": VARS, "transformations": items},
+            "identity": identity}
+    added = {}
+    collect_added(items, "", added, track(case)["ls"])
+    case["added"] = added
+    return case
 
 
 def rule_fields(rule):
@@ -1273,15 +1456,22 @@ def gen_tr(tier, rng):
             if selectors_inhabited(expr, names):
                 break
             expr = gen_expr(rng, names, rng.choice([0, 1, 1, 2, 2]))
-        rule = {"title": "t", "logsource": {"category": "c"}, "detection": dict(dets, condition=spell(expr))}
+        rule = {"title": "t", "logsource": dict(rng.choice(LOGSOURCES)), "detection": dict(dets, condition=spell(expr))}
         if rng.random() < 0.3:
             rule["fields"] = rng.sample(C_FIELDS + ["other"], rng.randint(1, 3))
+        elif rng.random() < 0.15:
+            rule["fields"] = [rng.choice(C_FIELDS + ["other"]) for _ in range(rng.randint(2, 4))]    # with repetitions
+        if rng.random() < 0.1:
+            rule[rng.choice(["myattr", "env"])] = rng.choice(["dev", "prod"])       # custom attribute of the rule document
         identity = rng.random() < 0.25
         r = rng.random()
-        if rng.random() < 0.22:
+        if rng.random() < 0.2:
             identity = False
             dets, expr, items = rng.choice(SPECIAL_GENERATORS)(rng)
-            rule = {"title": "t", "logsource": {"category": "c"}, "detection": dict(dets, condition=spell(expr))}
+            rule = {"title": "t", "logsource": dict(rng.choice(LOGSOURCES)), "detection": dict(dets, condition=spell(expr))}
+        elif rng.random() < 0.2:
+            identity = False
+            items = gen_attr_chain(rng, rule)
         elif rng.random() < 0.3:
             identity = False
             items = gen_dependent_chain(rng, rule)
@@ -1294,22 +1484,17 @@ def gen_tr(tier, rng):
             nest = {"type": "nest", "items": inner}
             nest.update(gen_scope(rng) if rng.random() < 0.5 else {})
             items = [nest]
-        assign_ids(items)
-        pipeline = {"name": "p", "priority": 10, "vars": VARS, "transformations": items}
-        added = {}
-        collect_added(items, "", added)
-        out.append({"rule": rule, "expr": expr, "pipeline": pipeline, "added": added, "identity": identity})
+        out.append(finish_case(rule, expr, items, identity))
     return out + hostile_cases()
 
 
 def hostile_cases():
     def mk(dets, expr, items, identity=False):
         rule = {"title": "t", "logsource": {"category": "c"}, "detection": dict(dets, condition=spell(expr))}
-        assign_ids(items)
-        added = {}
-        collect_added(items, "", added)
-        return {"rule": rule, "expr": expr, "pipeline": {"name": "p", "priority": 10, "vars": VARS, "transformations": items},
-                "added": added, "identity": identity}
+        return finish_case(rule, expr, items, identity)
+    def mkl(ls, dets, expr, items):
+        rule = {"title": "t", "logsource": ls, "fields": ["f", "Image"], "detection": dict(dets, condition=spell(expr))}
+        return finish_case(rule, expr, items, False)
     sel = ["id", "sel"]
     out = [
         mk({"sel": {"f|neq": "v"}}, sel, [{"type": "field_name_mapping", "mapping": {"f": ["a", "b"]}}]),
@@ -1350,6 +1535,22 @@ def hostile_cases():
         mk({"sel": {"Hashes|neq": ["MD5=a", "SHA1=b", "MD5=c"]}}, sel,
            [{"type": "hashes_fields", "valid_hash_algos": ["MD5", "SHA1"], "field_prefix": "File", "drop_algo_prefix": True}]),
         mk({"sel": {"reg|neq": "Qw:5"}}, sel, [{"type": "extract_fields", "regex": "(?P<type>[A-Za-z]+):(?P<val>[0-9]+)"}]),
+        # change_logsource sets exactly the given attributes: the omitted ones are cleared, which followers see
+        mkl({"category": "process_creation", "product": "windows"}, {"sel": {"Image": "a"}}, sel,
+            [{"type": "change_logsource", "service": "sysmon"},
+             {"type": "field_name_prefix", "prefix": "win.", "rule_conditions": [{"type": "logsource", "product": "windows"}]}]),
+        mkl({"category": "process_creation", "product": "windows"}, {"sel": {"Image": "a", "g": 1}}, sel,
+            [{"type": "change_logsource", "service": "sysmon"},
+             {"type": "drop_detection_item", "rule_conditions": [{"type": "logsource", "category": "process_creation"}], "rule_cond_not": True,
+              "field_name_conditions": [{"type": "include_fields", "fields": ["g"]}]}]),
+        mkl({"category": "process_creation", "product": "windows"}, {"sel": {"Image": "a"}}, sel,
+            [{"type": "change_logsource", "service": "sysmon"},
+             {"type": "add_condition", "template": True, "conditions": {"source": "$category/$service"}}]),
+        mkl({"category": "c", "product": "linux", "service": "auditd"}, {"sel": {"f": "a"}}, sel,
+            [{"type": "set_state", "key": "k", "val": "v"}, {"type": "set_custom_attribute", "attribute": "env", "value": "prod"},
+             {"type": "field_name_suffix", "suffix": "_s", "rule_conditions": [{"type": "processing_state", "key": "k", "val": "v"},
+                                                                                {"type": "rule_attribute", "attribute": "env", "value": "prod"}]},
+             {"type": "set_value", "value": "Z", "rule_conditions": [{"type": "rule_attribute", "attribute": "env", "value": "prod", "op": "ne"}]}]),
         # marks survive the copies: A marks f and g, f is mapped one-to-many, C applies where A was applied
         mk({"sel": {"f": "foo", "g": "bar"}}, sel, [{"id": "A", "type": "case", "method": "upper"},
                                                     {"id": "B", "type": "field_name_mapping", "mapping": {"f": ["x", "y"]}},
@@ -1430,8 +1631,16 @@ def c_doc(d):
     return "(%s %s)" % (d[0], clist(c_doc(x) for x in d[1]))
 
 
+def c_attrs(a):
+    ls = a["logsource"]
+    d = lambda m: clist("(%s, %s)" % (cstr(k), cstr(v)) for k, v in m.items())
+    return "(mkA (%s, (%s, %s)) %s %s %s)" % (c_ostr(ls.get("category")), c_ostr(ls.get("product")), c_ostr(ls.get("service")),
+                                              d(a["custom"]), d(a["state"]), clist(cstr(x) for x in a["applied"]))
+
+
 def c_rule(r):
-    return "(mkR %s %s %s)" % (clist("(%s, %s)" % (cstr(n), c_det(t)) for n, t in r["dets"]), cstr(r["cond"]), clist(cstr(f) for f in r["fields"]))
+    return "(mkRule %s %s %s %s)" % (clist("(%s, %s)" % (cstr(n), c_det(t)) for n, t in r["dets"]), cstr(r["cond"]),
+                                     clist(cstr(f) for f in r["fields"]), c_attrs(r["attrs"]))
 
 
 def c_fres(fr):
@@ -1441,8 +1650,16 @@ def c_fres(fr):
 def c_conds(c):
     def ic(k, a):
         return "(IApplied %s)" % cstr(a) if k == "applied" else "(%s %s)" % ("IIsNull" if k == "null" else "IWild", cbool(a))
-    return "(mkC %s %s %s %s %s %s)" % (
-        c_ostr(c["id"]), cbool(c["rule"]), clist("(%s %s)" % ("FInc" if k == "inc" else "FExc", clist(cstr(x) for x in l)) for k, l in c["fconds"]),
+    def rc(x):
+        if x[0] == "applied":
+            return "(RApplied %s)" % cstr(x[1])
+        if x[0] == "state":
+            return "(RState %s %s)" % (cstr(x[1]), cstr(x[2]))
+        if x[0] == "attr":
+            return "(RAttr %s %s %s)" % (cbool(x[1]), cstr(x[2]), cstr(x[3]))
+        return "(RLogsource %s %s %s)" % (c_ostr(x[1]), c_ostr(x[2]), c_ostr(x[3]))
+    return "(mkC %s %s %s %s %s %s %s %s)" % (
+        c_ostr(c["id"]), cbool(c["rule"]), clist(rc(x) for x in c["rconds"]), cbool(c["rneg"]), clist("(%s %s)" % ("FInc" if k == "inc" else "FExc", clist(cstr(x) for x in l)) for k, l in c["fconds"]),
         cbool(c["fneg"]), clist(ic(k, a) for k, a in c["iconds"]), cbool(c["ineg"]))
 
 
@@ -1475,7 +1692,8 @@ def all_plains(case, r):
     expr = case["expr"]
     vars_ = case["pipeline"].get("vars", {})
     drawn = drawn_names(case, r["rin"], r["rout"])
-    rm = rule_matches(case["pipeline"])
+    rm = rule_matches(case)
+    repl = []
     for k, item in enumerate(case["pipeline"]["transformations"]):
         p = parse_item(item, str(k), r["added"], drawn, rm)
         steps = [(p[1], p[2])] if p[0] == "item" else (p[2] if p[1]["rule"] else [])
@@ -1483,6 +1701,16 @@ def all_plains(case, r):
             docs, expr = rewrite_step(c, ts, vars_, docs, expr)
             for _, d in docs:
                 doc_plains(d, out)
+            if ts[0] == "replace":
+                repl.append(ts)
+    # where model and rewrite part ways (known findings) the model meets values the rewrite never has: close the
+    # table under the substitutions of the pipeline
+    for _ in range(len(repl)):
+        for ts in repl:
+            for p0 in list(out):
+                new = re.sub(ts[1], ts[2], p0)
+                out.add(new)
+                out.add(plain_of(sparse(re.sub(r"\\(?![*?])", r"\\\\", new))))
     return sorted(out)
 
 
@@ -1533,6 +1761,14 @@ def c_tspec(ts, vars_, plains):
         return "(TReplace %s)" % clist("(%s, %s)" % (cstr(p), cstr(re.sub(ts[1], ts[2], p))) for p in plains)
     if k == "convertstr":
         return "TConvertStr"
+    if k == "chlog":
+        return "(TChangeLogsource %s %s %s)" % (c_ostr(ts[1]), c_ostr(ts[2]), c_ostr(ts[3]))
+    if k == "setcustom":
+        return "(TSetCustom %s %s)" % (cstr(ts[1]), cstr(ts[2]))
+    if k == "setstate":
+        return "(TSetState %s %s)" % (cstr(ts[1]), cstr(ts[2]))
+    if k in ("addfield", "removefield", "setfield"):
+        return "(%s %s)" % ({"addfield": "TAddField", "removefield": "TRemoveField", "setfield": "TSetField"}[k], clist(cstr(x) for x in ts[1]))
     if k == "regex":
         return "(TRegex %s)" % {"plain": "RPlain", "ignore_case_flag": "RFlag", "ignore_case_brackets": "RBrackets"}[ts[1]]
     if k == "convertnum":
@@ -1570,7 +1806,7 @@ def c_tspec(ts, vars_, plains):
 def c_pipeline(case, r):
     vars_ = case["pipeline"].get("vars", {})
     drawn = drawn_names(case, r["rin"], r["rout"])
-    rm = rule_matches(case["pipeline"])
+    rm = rule_matches(case)
     plains = all_plains(case, r)
     out = []
     for k, item in enumerate(case["pipeline"]["transformations"]):
@@ -1629,9 +1865,14 @@ def tr_to_coq(case, r):
         if len(ids) > MAX_ATOMS:
             r["why_none"] = "too many atoms"
             return None
-        return ("{| tc_pipe := %s; tc_in := %s; tc_out := %s; tc_rw := %s; tc_q1 := %s; tc_q2 := %s; tc_natoms := %d%%nat |}" % (
+        fin = track(case)["final"]
+        spec_attrs = {"logsource": fin["logsource"], "custom": {k: pj(v) for k, v in fin["custom"].items()},
+                      "state": {k: pj(v) for k, v in fin["state"].items()}, "applied": fin["applied"]}
+        return ("{| tc_pipe := %s; tc_in := %s; tc_out := %s; tc_rw := %s; tc_attrs := %s; tc_fields := %s; tc_q1 := %s; tc_q2 := %s; "
+                "tc_natoms := %d%%nat |}" % (
             c_pipeline(case, r), c_rule(r["rin"]), c_rule(r["rout"]),
-            clist("(%s, %s)" % (cstr(n), c_doc(d)) for n, d in r["rw"]), q1, q2, len(ids)))
+            clist("(%s, %s)" % (cstr(n), c_doc(d)) for n, d in r["rw"]), c_attrs(spec_attrs), clist(cstr(f) for f in fin["fields"]),
+            q1, q2, len(ids)))
     except Unspellable as u:
         r["why_none"] = "unencodable: " + str(u)
         return None
@@ -1649,7 +1890,7 @@ def iter_items(t):
 
 def steps_of(case, r):
     drawn = drawn_names(case, r["rin"], r["rout"])
-    rm = rule_matches(case["pipeline"])
+    rm = rule_matches(case)
     for k, item in enumerate(case["pipeline"]["transformations"]):
         p = parse_item(item, str(k), r["added"], drawn, rm)
         if p[0] == "item":
